@@ -52,9 +52,11 @@ def _get_uses_of(node: ast.AST, scope: ast.AST, source: str) -> Iterable[ast.Nam
             continue
         if any(core.walk(funcdef.args, ast.arg(arg=name))):
             blacklisted_names.update(core.walk(funcdef, ast.Name))
+        inner_scopes = (ast.FunctionDef, ast.AsyncFunctionDef, ast.ClassDef, ast.Lambda)
+        inner_scopes += (ast.ListComp, ast.SetComp, ast.GeneratorExp, ast.DictComp)
         inner_scope_names = {
             child
-            for inner in core.walk(funcdef, (ast.FunctionDef, ast.AsyncFunctionDef, ast.ClassDef))
+            for inner in core.walk(funcdef, inner_scopes)
             if inner is not funcdef
             for child in core.walk(inner, ast.Name)
         }
